@@ -232,10 +232,11 @@ async def dict() -> builtins.dict[Any, Any]: ...
 @overload
 async def dict(
     iterable: AnyIterable[builtins.tuple[HK, T]],
+    /,
 ) -> builtins.dict[HK, T]: ...
 @overload
 async def dict(
-    iterable: AnyIterable[builtins.tuple[str, T]] = ..., **kwargs: T
+    iterable: AnyIterable[builtins.tuple[str, T]] = ..., /, **kwargs: T
 ) -> builtins.dict[str, T]: ...
 @overload
 async def set() -> builtins.set[Any]: ...
